@@ -44,6 +44,7 @@ type txmonitor struct {
 	logger             *slog.Logger
 	metrics            *metrics
 	lastConfirmedNonce atomic.Uint64
+	drained            bool
 }
 
 func newTxMonitor(
@@ -98,6 +99,9 @@ func (t *txmonitor) watchLoop() {
 				}
 			}
 		}
+		// the waiters have been answered, make sure nobody answers them again
+		t.waitMap = make(map[uint64]map[common.Hash][]chan Result)
+		t.drained = true
 	}()
 
 	lastBlock := uint64(0)
@@ -288,11 +292,17 @@ func (t *txmonitor) watchTx(txHash common.Hash, nonce uint64) (<-chan Result, er
 	t.mtx.Lock()
 	defer t.mtx.Unlock()
 
+	c := make(chan Result, 1)
+	if t.drained {
+		c <- Result{nil, ErrMonitorClosed}
+		close(c)
+		return c, nil
+	}
+
 	if t.waitMap[nonce] == nil {
 		t.waitMap[nonce] = make(map[common.Hash][]chan Result)
 	}
 
-	c := make(chan Result, 1)
 	t.waitMap[nonce][txHash] = append(t.waitMap[nonce][txHash], c)
 
 	select {
